@@ -175,6 +175,13 @@ def phc_part(res, rng):
                 o = rng.choice([o, cfloat.encode(-0.25), cfloat.encode(1.0), zero])
             phc = rng.choice([0, 0, 1, 12345, rng.randrange(10 ** 6), rng.randrange(2 ** 40), 2 ** 32 - 1, 2 ** 32, 2 ** 31 - 1, 2 ** 31, 65535])
             t += rng.randrange(1, 20)
+            if _k > 0 and rng.random() < 0.25:
+                # a report that is not a measurement (chronyd unsynchronised, or its reference time stale), with
+                # figures and a PHC error bound of its own: the published bound stays the one of the last measurement
+                leap, age = rng.choice([(3, 0), (rng.randrange(3), 33 + rng.randrange(100))])
+                parts += ["r", str(d), str(e), str(o), str(leap), str(itv), "0", str(age), "0", str(phc), str(t), str(rng.randrange(NS))]
+                meta.append(meta[-1])
+                continue
             parts += ["r", str(d), str(e), str(o), str(rng.randrange(3)), str(itv), "0", "0", "0", str(phc), str(t), str(rng.randrange(NS))]
             meta.append((d, e, o, phc))
         lines.append(" ".join(parts))
